@@ -352,6 +352,25 @@ func checkTree(spec *ukit.Spec, idx int, res *ux.Result) {
 		}
 		twinSpec := inlineTwin(s)
 		twin := ukit.BuildScope(twinSpec)
+		// the same tree as an engine gets it: described, loaded from the description, the same namespaces applied
+		var loaded *schema.ScopeSchema
+		if d, err := b.scope.SelfSerialize(); err != nil {
+			fail("a linked tree cannot describe itself", err.Error(), fullyLinkedSeq)
+		} else if l, err := schema.UnserializeScope(d); err != nil {
+			fail("a linked tree's own description is rejected", err.Error(), fullyLinkedSeq)
+		} else {
+			loaded = l
+			fresh, _ := buildTree(spec) // fresh external tables for the loaded copy
+			for _, ns := range fullyLinkedSeq {
+				if ns != "" && !strings.HasSuffix(ns, "!") {
+					loaded.ApplyNamespace(fresh.ext[ns], ns)
+				}
+			}
+			if err := loaded.ValidateReferences(); err != nil {
+				fail("references of a tree loaded from its description are not all linked after the same applications", err.Error(), fullyLinkedSeq)
+				loaded = nil
+			}
+		}
 		inputs := append(ukit.ValidValues(s, 3), ukit.RawValues(s)...)
 		for _, v := range ukit.ValidValues(s, 3) {
 			// the same inputs with one-property objects given as their lone value
@@ -367,6 +386,13 @@ func checkTree(spec *ukit.Spec, idx int, res *ux.Result) {
 			if outcome(uo, eo) != outcome(ut, et) {
 				fail("inlining references changes Unserialize", fmt.Sprintf("input %s: with references -> %s, inlined -> %s", ukit.Show(in), outcome(uo, eo), outcome(ut, et)), fullyLinkedSeq)
 				continue
+			}
+			if loaded != nil {
+				ul, el := loaded.Unserialize(ukit.DeepCopy(in))
+				if outcome(ul, el) != outcome(uo, eo) {
+					fail("a tree loaded from its description resolves references differently", fmt.Sprintf("input %s: built -> %s, loaded -> %s", ukit.Show(in), outcome(uo, eo), outcome(ul, el)), fullyLinkedSeq)
+					continue
+				}
 			}
 			if eo != nil {
 				continue
@@ -512,7 +538,7 @@ func main() {
 			}
 			return res.Findings
 		},
-		Rule: "scope trees = outer scope {Root, A, B} with a nested scope {I, A} whose object id collides with the outer one; one reference to A at each of 4 positions (property, list item, map value, one-of member) x 3 namespaces in the outer root and likewise in the inner root, plus fixed references to B (self and n1) and a back-reference; objects with equal ids carry different marker enums so that what a reference denotes is observable. For every tree: breadth-first search over all sequences (depth <= 3) of ApplyNamespace calls over {n1, n2, self, n1 with an empty table, n2 with an empty table} (the last two fail with the documented panic for a dangling reference, which is recovered: every reference must be as before); state = which reference is linked to which object; every state is compared with the lexical reference resolver (ObjectReady, target, ValidateReferences). The first fully linked state is compared with the mechanically inlined twin on every raw value of V(tree) for Unserialize / Validate / Serialize. Three recursive graphs (list, mutual, map + one-of) are run on valid and invalid inputs of nesting depth 0..50; non-trivial = trees with more than one link state",
+		Rule: "scope trees = outer scope {Root, A, B} with a nested scope {I, A} whose object id collides with the outer one; one reference to A at each of 4 positions (property, list item, map value, one-of member) x 3 namespaces in the outer root and likewise in the inner root, plus fixed references to B (self and n1) and a back-reference; objects with equal ids carry different marker enums so that what a reference denotes is observable. For every tree: breadth-first search over all sequences (depth <= 3) of ApplyNamespace calls over {n1, n2, self, n1 with an empty table, n2 with an empty table} (the last two fail with the documented panic for a dangling reference, which is recovered: every reference must be as before); state = which reference is linked to which object; every state is compared with the lexical reference resolver (ObjectReady, target, ValidateReferences). The first fully linked state is compared with the mechanically inlined twin (and with the same tree loaded from its own description, the same namespaces applied) on every raw value of V(tree) for Unserialize / Validate / Serialize. Three recursive graphs (list, mutual, map + one-of) are run on valid and invalid inputs of nesting depth 0..50; non-trivial = trees with more than one link state",
 		Assumptions: []string{
 			"states are rebuilt from a fresh instance per BFS node (live schemas cannot be cloned)",
 			"inlining is only defined for non-recursive graphs",
